@@ -16,8 +16,8 @@ window tests use it;
 stored to the bitmap - the new bitmap derives from the old bitmap and the distance - and the only constant
 'all received' store is cut by the not-encrypted edge (peer restart on an unsecured session).
 """
-CLAUSES = ['a: duplicate check precedes every exchange effect', 'b: group check only after authentication', 'c: window state confined, modes fixed, window length 16',
-           'd: window bits have a legitimate origin']
+CLAUSES = ['a: duplicate check precedes every exchange effect', 'b: group check only after authentication, for every group data message, against the window of exactly this (fabric, node)', 'c: window state confined, modes fixed, window length 16',
+           'd: window bits have a legitimate origin; an unsecured restart is always accepted']
 NOT_DECIDED = ['the general (bitmap, distance) arithmetic over all histories', 'roll-over comparison', 'LRU eviction of tracked group senders']
 MIN_OBLIGATIONS = {'q': 14, 'd': 10, 'r': 14}
 
